@@ -695,7 +695,13 @@ def checks(h):
         batches = st.lists(func_strategy(supported), min_size=bsize, max_size=bsize).map(
             lambda fs: {"funcs": fs})
 
+        import time
+        t_end = time.time() + (240.0 if h.quick else 1500.0)   # wall budget only; a hit is inconclusive
+
         def body(batch):
+            if time.time() > t_end and not h._shrinking:
+                h.inconclusive("shard_wall_budget_batches_skipped")
+                return
             run_batch(h, sess, batch, "generated")
 
-        h.hyp("batches", batches, body, h.scale(10, 160), 1, shrink_budget_s=40.0)
+        h.hyp("batches", batches, body, h.scale(12, 160), 1, shrink_budget_s=40.0)
